@@ -61,11 +61,14 @@ CLAIMS["C13"] = dict(
         "token -- under the decidable side condition fields_ok on the table, which is re-extracted from grammar.py and "
         "re-proved (vm_compute) on every run, together with the dispatch table of RuleCheckingVisitor. Correspondence: "
         "model vs PythonParserGenerator on grammars with a defect planted at every syntactic position (17 contexts and "
-        "nested pairs). The second half (accepted grammars never raise Name/AttributeError while parsing) is checked on the "
-        "implementation over accepted grammars x inputs in a sandboxed child process; one known finding (token names "
-        "without a runtime primitive).",
-   design="6/C13", technique="Coq proof parametric in extracted tables (re-extraction + instance lemma) + correspondence on planted defects",
-   note="The no-crash half rests on the generator/runtime models of C01/C05 for its proof; here it is validated by execution only.")
+        "nested pairs, whole-body groups, every token kind). The second half: C13_every_reference_resolves -- for every module "
+        "whose calls all name one of its methods or a runtime primitive (refs_ok, decidable), no run on any input, "
+        "configuration, fuel or state ends in AttributeError; refs_ok is evaluated every run on the module the generator "
+        "model produces for each accepted grammar (model tied to the generator by K-gen), and the real parsers are run over "
+        "accepted grammars x inputs (also a second generation from the same grammar object) in a sandboxed child process; "
+        "one known finding (token names without a runtime primitive).",
+   design="6/C13", technique="Coq proofs (up-front check parametric in extracted tables; reference resolution of the IR interpreter) + instance lemmas + correspondence on planted defects + execution of accepted grammars",
+   note="NameError from an ACTION (an unbound name in user code) is outside the theorem; it depends on the action text.")
 CLAIMS["C03"] = dict(
    text="Coq theorems (Props/C03.v), for every monotone method table, every grammar and every rule order: the rule flags "
         "computed by the model of compute_nullables (depth-first passes with a visited set, repeated until stable; "
